@@ -145,6 +145,10 @@ def reward_tie_game(rng):
 def run(ctx, model=None):
     ctx.extra["rule"] = RULE
     rng = random.Random(ctx.seed * 7368787 + 5)
+    import analysis as _r5
+    _r5rng = random.Random(ctx.seed + 555)
+    _r5.round5_passes(ctx, _r5rng, [gen.stopping_game(_r5rng, extra_finals=0.25) for _ in range(3 if ctx.quick() else 40)] +
+                      [gen.slow_cycle_game(_r5rng), gen.decimal_tie_game(_r5rng)], "final-strategies", fields=[0, 1])
     from props.c10 import example_games
     from boards import board_games
     for g in example_games():
@@ -191,6 +195,9 @@ def run(ctx, model=None):
 
 
 def replay(ctx, viol):
+    import analysis as _r5
+    if _r5.replay_round5(ctx, viol, fields=[0, 1]):
+        return
     g = viol["input"]["game"]
     g["transition_list"] = [[tuple(t) for t in row] for row in g["transition_list"]]
     check_case(ctx, g, None)
